@@ -16,13 +16,13 @@ for c in cases:
         pth = os.path.join(V, "selftest", "patches", c["patch"])
         if c["patch"].startswith("seeded:"):
             pth = os.path.join(V, "seeded", c["patch"][7:], "patch.diff")
-        r = subprocess.run(["patch", "-p1", "-s", "-i", pth], cwd=tmp, capture_output=True, text=True)
+        r = subprocess.run(["patch", "-p1", "-s", "-i", pth], cwd=tmp, capture_output=True, text=True, errors="replace")
         if r.returncode != 0:
             print("PATCH-FAILED", c["patch"], r.stdout, r.stderr)
             bad += 1
             continue
         env = dict(os.environ, VERIF_REPO=tmp, VERIF_EVIDENCE_DIR=os.path.join(tmp, ".evidence"))
-        r = subprocess.run([os.path.join(V, "check"), c["property"], "quick"], cwd=V, env=env, capture_output=True, text=True)
+        r = subprocess.run([os.path.join(V, "check"), c["property"], "quick"], cwd=V, env=env, capture_output=True, text=True, errors="replace")
         out = r.stdout
         viol = [l for l in out.splitlines() if l.startswith("VIOLATION")]
         named = c["expect"] in out
